@@ -681,6 +681,27 @@ def run_impl(case):
                                 notes.append(["positional", "ADC", "ADC(input, fs, n, otype) passed positionally differs from the keyword call"])
                         except Exception as e:  # noqa
                             notes.append(["positional", "ADC", f"positional call failed: {type(e).__name__}: {e}"[:160]])
+                        # change of units (theorem adc_unit_free): scaling every sample by a power of two is exact in
+                        # binary floating point at every step of shortest_int and of the quantiser, so the codes of the
+                        # scaled record must be IDENTICAL (magnitudes kept far from under/overflow; fs=None only)
+                        if case["otype"] == "n" and fs is None and dt not in INT_DTYPES and arr.size:
+                            tot = arr if case.get("noise") is None else arr + nz
+                            mags = np.abs(np.concatenate([arr, tot] + ([nz] if case.get("noise") is not None else [])))
+                            nzm = mags[mags > 0]
+                            if np.all(np.isfinite(mags)) and nzm.size and nzm.min() > 1e-200 and mags.max() < 1e200:
+                                a = 2.0 ** (-7 if case["n"] % 2 else 9)
+                                arg2 = arr * a if case["input"] != "electrical_signal" and case.get("noise") is None else \
+                                    (electrical_signal(arr * a, nz * a) if case.get("noise") is not None else electrical_signal(arr * a))
+                                try:
+                                    out2 = D.ADC(arg2, fs=None, n=case["n"], otype="n")
+                                    if not _same_arrays(out.signal, out2.signal):
+                                        bad = np.flatnonzero(np.asarray(out.signal).ravel() != np.asarray(out2.signal).ravel()) \
+                                            if np.shape(out.signal) == np.shape(out2.signal) else [0]
+                                        k0 = int(bad[0]) if len(bad) else 0
+                                        notes.append(["unit-free", "ADC", f"codes change when every sample is multiplied by {a!r} "
+                                                      f"(first at sample {k0}, {len(bad)} samples differ)"])
+                                except Exception as e:  # noqa
+                                    notes.append(["unit-free", "ADC", f"ADC of the record scaled by {a!r} failed: {type(e).__name__}: {e}"[:160]])
                 finally:
                     D.shortest_int = real
                 _obj_diff(attrs0, _obj_state(arg), notes)
@@ -961,6 +982,13 @@ def oracle(case, res):
     # float pre-filter: a sample is cleared without exact arithmetic when its float-evaluated clause holds with a margin
     # larger than any rounding of the pre-filter itself (32 ulp of the magnitudes involved); all others are checked exactly
     xa, oa = np.array(xs, dtype=float), np.array(out, dtype=float)
+    # order preservation (theorem adc_monotone): exact, no tolerance - every float operation of the quantiser
+    # (subtract, divide/multiply by a positive number, round, clip) is monotone
+    order = np.argsort(xa, kind="stable")
+    drop = np.flatnonzero(np.diff(oa[order]) < 0)
+    if len(drop):
+        j, k = int(order[drop[0]]), int(order[drop[0] + 1])
+        v.append(("C18:ADC:monotone", f"sample {j} ({xs[j]!r}) <= sample {k} ({xs[k]!r}) but outputs {out[j]!r} > {out[k]!r}"))
     fstep = (vmax - vmin) / top
     mag = max(abs(vmin), abs(vmax), float(np.max(np.abs(xa))), float(np.max(np.abs(oa)))) if ot == "v" else \
         max(abs(vmin), abs(vmax), float(np.max(np.abs(xa))))
